@@ -358,7 +358,12 @@ fn one_symbol<const CELLS: usize, const PROPS: usize, const UPDATE: bool>() {
     let hist: [u8; 8] = t.bytes::<8>();
     let far = t.u8();
     let code = t.u32();
-    let (lc, lp, pb) = if PROPS == 0 {
+    let (lc, lp, pb) = if PROPS == 1 {
+        let lc = (t.u8() % 9) as u32;
+        let lp = (t.u8() % 5) as u32;
+        let pb = (t.u8() % 5) as u32;
+        (lc, lp, pb)
+    } else if PROPS == 0 {
         let lc = (t.u8() % 5) as u32;
         let lp = (t.u8() % 5) as u32;
         let pb = (t.u8() % 5) as u32;
@@ -1815,4 +1820,15 @@ pub fn raw_lzma_decompress_position() {
     vassert!(sink.bytes == size as usize && sink.flushes >= 1, "one-shot decoder: output delivered and flushed");
     vcover!(!one, "size_zero");
     forget(dec);
+}
+
+//@ harness props=C01 tier=thorough optional=yes unwind=10 unwindset=RangeDecoder.*E3getB:28,decode_distance:28 mem_gb=44 timeout=3000 native=no opt_covers=dry_longest,literal_lc1_lp3
+//@ bound: ONE symbol of process_next_inner(update=true) from every valid state with symbolic (lc,lp,pb) over ALL 225 settings (lc<=8, lp<=4, pb<=4) on the full 0x300 << 12 = 3145728-cell literal table
+#[cfg_attr(kani, kani::proof)]
+#[cfg_attr(kani, kani::stub(std::fmt::format, crate::verif_common::stub_format))]
+#[cfg_attr(kani, kani::stub(std::io::Error::is_interrupted, crate::verif_common::stub_not_interrupted))]
+#[cfg_attr(kani, kani::stub(crate::decode::rangecoder::RangeDecoder::decode_bit, crate::decode::rangecoder::verif_h::oracle_decode_bit))]
+#[cfg_attr(kani, kani::stub(crate::decode::rangecoder::RangeDecoder::get_bit, crate::decode::rangecoder::verif_h::oracle_get_bit))]
+pub fn sym_conformance_allprops() {
+    one_symbol::<3145728, 1, true>()
 }
